@@ -59,7 +59,22 @@ def budget(tier):
     return {"runs": 70000, "wall": 1500, "chunk": 8}
 
 
+def gen_long(rng):
+    """> 1000 features so that any internal paging of merge_all over the table it modifies shows"""
+    feats = [mf(["chr1", "src", "gene", 1, 8, ".", "+", "."], [["ID", ["g"]]])]
+    n = rng.choice([1100, 1300])
+    for i in range(n):
+        # pairs of overlapping exons on consecutive 'chromosomes': ~n/2 runs of 2 members
+        c = "c%04d" % (i // 2)
+        s_ = 1 + (i % 2) * 2
+        feats.append(mf([c, "src", "exon", s_, s_ + 3, ".", "+", "."], [["ID", ["i%d" % i]]]))
+    ops = [{"op": "merge_all", "exclude": rng.random() < 0.5, "groups": None, "criteria": None, "end": "restart", "fault": None}]
+    return {"feats": feats, "ops": ops, "long": True}
+
+
 def gen(rng, tier):
+    if rng.random() < 0.004:
+        return gen_long(rng)
     n = rng.randint(2, 9)
     feats = []
     two_seq = rng.random() < 0.4
@@ -336,6 +351,37 @@ def run(case):
                     kw["featuretypes_groups"] = op["groups"]
                 mreq = {"op": "merge_all", "h": "h", "kw": kw, "criteria": op.get("criteria")}
                 flt = op.get("fault") if op["exclude"] else None
+                flt2 = op.get("fault") if (not op["exclude"] and (op.get("fault") or {}).get("mode") in ("error", "cancel")) else None
+                r_done = None
+                if flt2:
+                    # merge_all without exclude_components commits run by run; after an error/cancel part-way the SAME handle
+                    # is used again: ids it hands out next must not be ids of features that were stored before the failure
+                    with World("c16t_") as w2:
+                        import shutil as _sh
+                        _sh.copy(path, w2.p("a.db"))
+                        t = w2.node()
+                        w2.call(t, {"op": "open", "h": "h", "db": "a.db"})
+                        tr = w2.call(t, dict(mreq))
+                        t.close()
+                    if tr["ok"] and len(tr["out"]) >= 2 and tr["points"] > 4:
+                        fr = call(node, dict(mreq, faults=[{"at": min(tr["points"] - 1, int(flt2["frac"] * tr["points"])), "mode": flt2["mode"]}]))
+                        if not fr["ok"] and fr.get("injected"):
+                            probes["fault_inside_merge_all_then_same_handle"] = 1
+                            call(node, {"op": "gc"})
+                            st_ = call(node, {"op": "conn_state", "h": "h"})
+                            dd = call(node, {"op": "dump", "h": "h"})
+                            if dd["ok"]:
+                                stored = set(f["id"] for f in dd["dump"]["features"])
+                                mr = call(node, {"op": "merge", "h": "h", "criteria": ["seqid", "end_inc"], "sel": {"order_by": ["seqid", "start"]}, "save": "after_fault"})
+                                if mr["ok"]:
+                                    for o in mr["out"]:
+                                        if o["children"] and o["id"] in stored:
+                                            V.append(viol("C16.ids", "after a failed merge_all the handle hands out id %r, which a feature stored before the "
+                                                          "failure already carries" % o["id"], kind="id_reused_after_failed_merge_all", mode=flt2["mode"]))
+                                            break
+                            stop = True
+                            continue
+                        r_done = fr
                 if flt:
                     # fault-free twin first (tells the number of seam points and the expected runs), in a scratch copy
                     with World("c16t_") as w2:
@@ -387,6 +433,8 @@ def run(case):
                         r = fr
                     else:
                         r = call(node, mreq)
+                elif r_done is not None:
+                    r = r_done
                 else:
                     r = call(node, mreq)
                 if not r["ok"]:
@@ -470,5 +518,7 @@ def run(case):
         out["stats"] = w.stats
     out["trace_hash"] = core.digest(journal)
     out["nontrivial"] = nontrivial
+    if case.get("long"):
+        probes["merge_all_over_more_than_1000_features"] = 1
     out["sample"] = {"lines": G.lines_of(case["feats"])[:6], "ops": case["ops"]}
     return out
